@@ -297,3 +297,56 @@ def asan_update_sweep(ck, tier, wd, rnd):
             ended[kind or "exit"] = ended.get(kind or "exit", 0) + 1
     ck.extra["alloc_asan_update_runs"] = len(jobs); ck.extra["alloc_asan_update_process_ended"] = ended
     return out
+
+
+def asan_writer_sweep(ck, tier, wd, rnd):
+    """C01: writer runs (zstd with and without a dictionary, uncompressed, manual and automatic chunking, the uncompressed-source
+    flag) under ASan/UBSan while every allocation made by zchunk's own code is refused in turn; heap corruption is a
+    memory-safety violation, a stop on NULL is recorded.  Returns [(what, script)]"""
+    import re
+    from concurrent.futures import ThreadPoolExecutor
+    scen = [({"comp": 2, "manual": True, "full": 1, "chunk": 3, "level": 3}, 5000, [700, 1300, 3000]),
+            ({"comp": 0, "manual": False, "full": 1, "chunk": 1, "max": 20000}, 90000, [32768, 32768, 24464]),
+            ({"comp": 2, "manual": False, "full": 0, "chunk": 3, "level": 1, "dict": True}, 70000, [70000]),
+            ({"comp": 2, "manual": True, "full": 1, "chunk": 1, "uncomp": True, "level": 3}, 3000, [1000, 1000, 1000])]
+    jobs = []
+    for i, (cfg, n, seg) in enumerate(scen):
+        D = corpus.text(rnd, n) if i != 1 else rnd.randbytes(n)
+        src = os.path.join(wd, "asww%d.in" % i); open(src, "wb").write(D)
+        def script(cid, cfg=cfg, seg=seg, src=src):
+            out = os.path.join(wd, cid + ".zck")
+            L = ["case %s 60" % cid, "ctx 0", "open 0 %s rwt" % out, "init_write 0 0"] + writegen.cfg_lines(cfg, 0, wd, cid)
+            pos = 0
+            for k in seg:
+                L.append("write 0 file:%s:%d:%d" % (src, pos, k)); pos += k
+                if cfg.get("manual"): L.append("end_chunk 0")
+            L += ["close 0", "free 0", "end"]
+            return "\n".join(L) + "\n"
+        n_alloc, _ev = _count(script("asww%d-base" % i), "asan")
+        for k in _points(n_alloc, tier, rnd, 50):
+            jobs.append((i, k, n_alloc, script("asww%d-a%d" % (i, k)).replace("ctx 0\n", "alloc_arm %d 1\nctx 0\n" % k, 1)))
+    def work(j):
+        i, k, n, s = j
+        errp = os.path.join(wd, "asww-%d-%d.err" % (i, k))
+        ev = common.run_driver(s, "asan", None, 120, errp)
+        return ev, (open(errp, "rb").read().decode("latin1") if os.path.exists(errp) else "")
+    with ThreadPoolExecutor(max_workers=common.NCPU) as ex:
+        res = list(ex.map(work, jobs))
+    out = []; ended = {}; seen = set()
+    for (i, k, n, s), (ev, rep) in zip(jobs, res):
+        ck.case(("alloc-asan-writer", i, k))
+        m = re.search(r"ERROR: AddressSanitizer: ([a-z\-]+)", rep)
+        kind = m.group(1) if m else None
+        if any(e["op"] == "Hang" for e in ev):
+            kind = "hang"
+        if kind in ("double-free", "heap-use-after-free", "heap-buffer-overflow", "stack-buffer-overflow", "global-buffer-overflow", "attempting", "bad-free", "hang"):
+            summ = [x for x in rep.splitlines() if x.startswith("SUMMARY")]
+            frames = [x.strip()[:110] for x in rep.splitlines() if "/src/lib/" in x][:8]
+            key = (kind, summ[0][:120] if summ else "")
+            if key not in seen:
+                seen.add(key)
+                out.append(("writer run %d with allocation %d of %d refused: %s %s ; frames: %s" % (i, k, n, kind, " | ".join(summ)[:300], " < ".join(frames)), s))
+        elif kind or any(e["op"] == "Crash" for e in ev):
+            ended[kind or "exit"] = ended.get(kind or "exit", 0) + 1
+    ck.extra["alloc_asan_writer_runs"] = len(jobs); ck.extra["alloc_asan_writer_process_ended"] = ended
+    return out
